@@ -418,3 +418,34 @@ Proof.
   intros Hv _. cbn [exec]. rewrite Hv. eexists; split; [reflexivity|]. cbn [regs mem]. split; [reflexivity|].
   apply load4_store4_same. unfold valid_word_addr in Hv. lia.
 Qed.
+
+(* ------------------------------------------------------------------ accelerator registers (NullXcel instance) *)
+Lemma xcelreg_not_mngr c : is_xcelreg c = true -> (c =? CSR_MNGR2PROC) = false /\ (c =? CSR_PROC2MNGR) = false.
+Proof. unfold is_xcelreg, XCEL_LO, XCEL_HI, CSR_MNGR2PROC, CSR_PROC2MNGR. lia. Qed.
+
+(* a write to any accelerator register followed (after any instructions that are not accelerator writes: see
+   exec_xcel_frame) by a read of any accelerator register returns the written register value *)
+Theorem xcel_write_then_read s c1 rs1 c2 rd :
+  is_xcelreg c1 = true -> is_xcelreg c2 = true ->
+  exists s1 s2, exec (CSRW c1 rs1) s = Some s1 /\ exec (CSRR rd c2) s1 = Some s2 /\
+    regs s1 = regs s /\ mem s1 = mem s /\ outputs s1 = outputs s /\
+    regs s2 = rset (regs s) rd (wrap32 (rget (regs s) rs1)) /\
+    mem s2 = mem s /\ outputs s2 = outputs s /\ mngr2proc s2 = mngr2proc s /\ xcel s2 = wrap32 (rget (regs s) rs1).
+Proof.
+  intros H1 H2. destruct (xcelreg_not_mngr c1 H1) as [_ A]. destruct (xcelreg_not_mngr c2 H2) as [B _].
+  cbn [exec]. rewrite A, H1. eexists. cbn [exec xcel regs mem mngr2proc proc2mngr_rev pc]. rewrite B, H2.
+  eexists. unfold xcel_read, xcel_write, outputs. cbn [regs mem mngr2proc proc2mngr_rev xcel].
+  repeat split; reflexivity.
+Qed.
+
+(* only an accelerator write changes the accelerator *)
+Theorem exec_xcel_frame i s s' : exec i s = Some s' ->
+  xcel s' = xcel s \/ exists c rs1, i = CSRW c rs1 /\ is_xcelreg c = true /\ xcel s' = wrap32 (rget (regs s) rs1).
+Proof.
+  destruct i; cbn [exec]; intros E;
+    repeat match type of E with
+    | (if ?c then _ else _) = Some _ => destruct c eqn:?; [|try discriminate]
+    | match ?l with [] => _ | _ :: _ => _ end = Some _ => destruct l; [discriminate|]
+    end; try discriminate; injection E as <-; cbn [xcel]; eauto.
+  right. do 2 eexists. split; [reflexivity|]. split; [assumption|reflexivity].
+Qed.
